@@ -20,11 +20,13 @@ class Undecided(Exception):
 
 
 class D:
-    __slots__ = ("m", "h")
+    __slots__ = ("m", "h", "op", "args")
 
-    def __init__(self, m: int, h: int):
+    def __init__(self, m: int, h: int, op: str = "in", args: tuple = ()):
         self.m = m
         self.h = h
+        self.op = op          # operator name ("in" = raw candle input: args = (tag, candle index, column))
+        self.args = args      # operands: D or concrete numbers
 
     def __repr__(self):
         return f"D({bin(self.m).count('1')} deps, max={self.m.bit_length() - 1})"
@@ -47,7 +49,7 @@ def mk(op: str, *args) -> D:
     for a in args:
         if isinstance(a, D):
             m |= a.m
-    return D(m, hash((op,) + tuple(hid(a) for a in args)))
+    return D(m, hash((op,) + tuple(hid(a) for a in args)), op, args)
 
 
 def is_abs(x) -> bool:
@@ -282,3 +284,76 @@ class NT:
 class PyRaise(Exception):
     def __init__(self, name):
         self.name = name
+
+
+# ---------------------------------------------------------------- witness evaluation of expression DAGs
+def _stat(name, xs, extra):
+    import statistics
+    xs = list(xs)
+    if name in ("argmax", "argmin"):
+        best = 0
+        for i, x in enumerate(xs):
+            if (name == "argmax" and x > xs[best]) or (name == "argmin" and x < xs[best]):
+                best = i
+        return best
+    if any(x != x for x in xs) and not name.startswith("nan"):
+        return NAN
+    try:
+        if name in ("std", "nanstd", "var"):
+            m = sum(xs) / len(xs)
+            v = sum((x - m) ** 2 for x in xs) / len(xs)
+            return math.sqrt(v) if name != "var" else v
+        if name == "median":
+            return statistics.median(xs)
+    except Exception:
+        return NAN
+    raise Undecided(f"witness evaluation of {name}")
+
+
+def eval_dag(root, inputs) -> float:
+    """Evaluate the expression DAG of an abstract value on a concrete valuation of the candle inputs.
+    inputs: callable (tag, candle index, column) -> float.  Iterative (DAGs can be deep)."""
+    if not isinstance(root, D):
+        return root
+    memo = {}
+    stack = [root]
+    while stack:
+        d = stack[-1]
+        if id(d) in memo:
+            stack.pop()
+            continue
+        if d.op == "in":
+            memo[id(d)] = inputs(*d.args)
+            stack.pop()
+            continue
+        pending = [a for a in d.args if isinstance(a, D) and id(a) not in memo]
+        if pending:
+            stack.extend(pending)
+            continue
+        vals = [memo[id(a)] if isinstance(a, D) else a for a in d.args]
+        op = d.op
+        try:
+            if op in BIN:
+                v = BIN[op](vals[0], vals[1])
+            elif op in UN:
+                v = UN[op](vals[0])
+            elif op == "phi":
+                v = vals[1] if vals[0] else vals[2]
+            elif op in ("phi1",):
+                v = vals[1]
+            elif op == "phi_none":
+                v = None if vals[0] else vals[1]
+            elif op in ("argmax", "argmin", "std", "nanstd", "var", "median"):
+                nums = [x for x in vals if not isinstance(x, tuple)]
+                v = _stat(op, nums, ())
+            elif op == "round":
+                v = round(*vals) if vals[0] == vals[0] else NAN
+            elif op == "roundn":
+                v = round(vals[0], int(vals[1])) if vals[0] == vals[0] else NAN
+            else:
+                raise Undecided(f"witness evaluation of operator {op}")
+        except (TypeError, ValueError, OverflowError, ZeroDivisionError):
+            v = NAN
+        memo[id(d)] = v
+        stack.pop()
+    return memo[id(root)]
